@@ -395,6 +395,41 @@ def unroll_tables(fn: ast.AST, mod: T.Any, limit: int = 16) -> ast.AST:
     return new
 
 
+def split_parallel(fn: ast.AST) -> ast.AST:
+    """Copy of `fn` in which `a, b = x, y` (displays of equal length) becomes `a = x; b = y` when that is the same thing:
+    no later right-hand side reads a target assigned earlier in the same statement.  (`pending, self.buf = self.buf, []`)"""
+    import copy
+
+    def reads(e: ast.AST) -> T.Set[str]:
+        out = {n.id for n in ast.walk(e) if isinstance(n, ast.Name)}
+        out |= {attr_chain(n) or '' for n in ast.walk(e) if isinstance(n, ast.Attribute)}
+        return out
+
+    def ok(st: ast.stmt) -> bool:
+        if not (isinstance(st, ast.Assign) and len(st.targets) == 1 and isinstance(st.targets[0], (ast.Tuple, ast.List))
+                and isinstance(st.value, (ast.Tuple, ast.List)) and len(st.targets[0].elts) == len(st.value.elts)):
+            return False
+        done: T.Set[str] = set()
+        for t, v in zip(st.targets[0].elts, st.value.elts):
+            if isinstance(t, ast.Starred) or isinstance(v, ast.Starred) or not (isinstance(t, ast.Name) or attr_chain(t)):
+                return False
+            if any(r == d or r.startswith(d + '.') for r in reads(v) for d in done):
+                return False
+            done.add(t.id if isinstance(t, ast.Name) else attr_chain(t) or '')
+        return True
+    if not any(ok(st) for st in ast.walk(fn) if isinstance(st, ast.stmt)):
+        return fn
+
+    class Split(ast.NodeTransformer):
+        def visit_Assign(self, st: ast.Assign) -> T.Any:
+            if not ok(st):
+                return st
+            return [ast.copy_location(ast.Assign(targets=[t], value=v), st) for t, v in zip(st.targets[0].elts, st.value.elts)]  # type: ignore[attr-defined]
+    new = Split().visit(copy.deepcopy(fn))
+    ast.fix_missing_locations(new)
+    return new
+
+
 _MODELS: T.Dict[int, NodeModel] = {}
 
 
